@@ -104,6 +104,26 @@ impl LexGen {
     }
 
     pub fn term(&self, rng: &mut Rng, depth: usize) -> LexTerm {
+        if !self.arity_valid && rng.chance(1, 60) {
+            // extreme profiles: a chain 20..80 deep, or 20..100 composites side by side
+            if rng.chance(1, 2) {
+                let mut t = self.atom(rng, false);
+                for i in 0..rng.range(20, 80) {
+                    t = match i % 3 {
+                        0 => LexTerm::new_compound(rng.pick(&self.vocab.connecters).clone(), vec![t]),
+                        1 => {
+                            let (l, r) = rng.pick(&self.vocab.set_brackets).clone();
+                            LexTerm::new_set(l, vec![t], r)
+                        }
+                        _ => LexTerm::new_statement(rng.pick(&self.vocab.copulas).clone(), t, self.atom(rng, false)),
+                    };
+                }
+                return t;
+            }
+            let n = rng.range(20, 100);
+            let kids: Vec<LexTerm> = (0..n).map(|_| self.term_in(rng, 2, true)).collect();
+            return LexTerm::new_compound(rng.pick(&self.vocab.connecters).clone(), kids);
+        }
         self.term_in(rng, depth, true)
     }
 
@@ -124,7 +144,7 @@ impl LexGen {
                         rng.range(1, 4)
                     }
                 } else {
-                    rng.range(1, 6)
+                    if rng.chance(1, 40) { rng.range(7, 14) } else { rng.range(1, 6) }
                 };
                 let is_image = c == e.compound.connecter_image_extension || c == e.compound.connecter_image_intension;
                 let mut terms: Vec<LexTerm> = (0..n).map(|_| self.term_in(rng, depth - 1, !(is_image && self.arity_valid))).collect();
@@ -147,6 +167,15 @@ impl LexGen {
     }
 
     fn number(&self, rng: &mut Rng) -> String {
+        if rng.chance(1, 40) {
+            // long digit strings (the lexical model does not interpret them)
+            let n = rng.range(20, 90);
+            let mut s = String::from(if rng.chance(1, 2) { "0." } else { "" });
+            for _ in 0..n {
+                s.push((b'0' + rng.below(10) as u8) as char);
+            }
+            return s;
+        }
         match rng.below(8) {
             0 => "0".into(),
             1 => "1".into(),
@@ -168,7 +197,15 @@ impl LexGen {
             // enumerated stamp: the whole text is the right part
             r
         } else {
-            let body = match rng.below(5) {
+            let body = match rng.below(6) {
+                5 => {
+                    let n = rng.range(20, 90);
+                    let mut s = String::from(if rng.chance(1, 2) { "+" } else { "-" });
+                    for _ in 0..n {
+                        s.push((b'0' + rng.below(10) as u8) as char);
+                    }
+                    s
+                }
                 0 => "0".to_string(),
                 1 => format!("-{}", rng.below(100)),
                 2 => format!("+{}", rng.below(100)),
@@ -183,13 +220,13 @@ impl LexGen {
         let term = self.term(rng, depth);
         let punctuation = rng.pick(&self.vocab.punctuations).clone();
         let stamp = self.stamp(rng);
-        let nt = if self.arity_valid { rng.below(3) } else { rng.below(5) };
+        let nt = if self.arity_valid { rng.below(3) } else if rng.chance(1, 30) { rng.range(5, 24) } else { rng.below(5) };
         let truth: Vec<String> = (0..nt).map(|_| self.number(rng)).collect();
         LexSentence::new(term, punctuation, stamp, truth)
     }
 
     pub fn task(&self, rng: &mut Rng, depth: usize) -> LexTask {
-        let nb = if self.arity_valid { rng.below(4) } else { rng.below(6) };
+        let nb = if self.arity_valid { rng.below(4) } else if rng.chance(1, 30) { rng.range(6, 24) } else { rng.below(6) };
         let budget: Vec<String> = (0..nb).map(|_| self.number(rng)).collect();
         LexTask { budget, sentence: self.sentence(rng, depth) }
     }
